@@ -57,7 +57,7 @@ def positions():
     return out
 
 
-def universe(tier, rng):
+def universe(tier, rng, streams):
     P = positions()
     shapes = []
     # U1: one segment, one atom of every kind, in every position
@@ -87,29 +87,30 @@ def universe(tier, rng):
         if k not in REDIR:
             shapes.append(shape([seg([k], amp=True)]))
             shapes.append(shape([seg(["word"]), seg([k], amp=True)], ["&&"]))
-    # U5: three segments, every operator pair, in positions
+    # U5: three segments, every operator pair, in positions (atoms from the fixed random streams)
     for o1, o2 in itertools.product(OPS, repeat=2):
-        for p in P[:: 7 if tier == "quick" else 1]:
-            ks = [rng.choice(KINDS) for _ in range(3)]
-            shapes.append(shape([seg([ks[0]], rc=rng.randint(0, 1)), seg([ks[1]], rc=rng.randint(0, 1)), seg([ks[2]])], [o1, o2], p))
         for rcs in itertools.product((0, 1), repeat=2):
             shapes.append(shape([seg(["word"], rc=rcs[0]), seg(["flag"], rc=rcs[1]), seg(["sq"])], [o1, o2]))
-    # U6: two segments in every position
-    for p in P:
-        for op in OPS:
-            a, b = rng.choice(KINDS), rng.choice(KINDS)
-            shapes.append(shape([seg([a]), seg([b])], [op], p))
-            shapes.append(shape([seg(["flag", "word"], cont=rng.randint(0, 2)), seg(["sq", "env"], cont=rng.randint(0, 2))], [op], p))
-    # U7 (thorough): random mixtures
-    n = 400 if tier == "quick" else 12000
-    for _ in range(n):
-        nseg = rng.choice((1, 1, 2, 2, 3, 4))
-        segs = []
-        for i in range(nseg):
-            atoms = [rng.choice(KINDS) for _ in range(rng.randint(0, 3))]
-            pipe = [rng.choice(ARG_KINDS) for _ in range(rng.randint(0, 2))] if rng.random() < 0.25 else None
-            segs.append(seg(atoms, pipe=pipe, amp=(i == nseg - 1 and rng.random() < 0.1), cont=rng.randint(0, len(atoms)) if rng.random() < 0.2 else 0, rc=rng.randint(0, 1)))
-        shapes.append(shape(segs, [rng.choice(OPS) for _ in range(nseg - 1)], rng.choice(P)))
+    for srng in streams:
+        for o1, o2 in itertools.product(OPS, repeat=2):
+            for p in P[::7]:
+                ks = [srng.choice(KINDS) for _ in range(3)]
+                shapes.append(shape([seg([ks[0]], rc=srng.randint(0, 1)), seg([ks[1]], rc=srng.randint(0, 1)), seg([ks[2]])], [o1, o2], p))
+        # U6: two segments in every position
+        for p in P:
+            for op in OPS:
+                a, b = srng.choice(KINDS), srng.choice(KINDS)
+                shapes.append(shape([seg([a]), seg([b])], [op], p))
+                shapes.append(shape([seg(["flag", "word"], cont=srng.randint(0, 2)), seg(["sq", "env"], cont=srng.randint(0, 2))], [op], p))
+        # U7: random mixtures
+        for _ in range(400):
+            nseg = srng.choice((1, 1, 2, 2, 3, 4))
+            segs = []
+            for i in range(nseg):
+                atoms = [srng.choice(KINDS) for _ in range(srng.randint(0, 3))]
+                pipe = [srng.choice(ARG_KINDS) for _ in range(srng.randint(0, 2))] if srng.random() < 0.25 else None
+                segs.append(seg(atoms, pipe=pipe, amp=(i == nseg - 1 and srng.random() < 0.1), cont=srng.randint(0, len(atoms)) if srng.random() < 0.2 else 0, rc=srng.randint(0, 1)))
+            shapes.append(shape(segs, [srng.choice(OPS) for _ in range(nseg - 1)], srng.choice(P)))
     if tier == "quick":
         # the quick tier keeps every U1-U4 shape at top level and a seeded third of the rest
         keep = []
@@ -154,23 +155,22 @@ HOSTILE = [
 ALPHABET = ["a", " ", "&", "|", "(", ")", "[", "]", "$", "!", "'", '"', "\n", "\\", ";", ":", "#", "@", "=", "-", ">"]
 
 
-def hostile_universe(tier, rng, rendered):
+def hostile_universe(tier, rng, rendered, streams):
     texts = list(HOSTILE)
     # every string of length <= 3 over the alphabet (length 4 in the thorough tier)
     for n in (1, 2, 3):
         texts += ["".join(t) for t in itertools.product(ALPHABET, repeat=n)]
     if tier == "thorough":
         texts += ["".join(t) for t in itertools.product(ALPHABET, repeat=4)]
-    else:
-        texts += ["".join(rng.choice(ALPHABET) for _ in range(rng.randint(4, 9))) for _ in range(1500)]
-    # damaged well-formed programs: truncated anywhere, one character dropped, one hostile character inserted
-    base = rendered if tier == "thorough" else rng.sample(rendered, min(len(rendered), 120))
-    for src in base:
-        cuts = range(1, len(src)) if tier == "thorough" and len(src) < 60 else sorted(rng.sample(range(1, len(src)), min(len(src) - 1, 6)))
-        for i in cuts:
-            texts.append(src[:i])
-            texts.append(src[:i] + src[i + 1:])
-            texts.append(src[:i] + rng.choice("()[]'\"\\$!&|\n") + src[i:])
+    rendered = sorted(set(rendered))
+    for srng in streams:
+        texts += ["".join(srng.choice(ALPHABET) for _ in range(srng.randint(4, 9))) for _ in range(1500)]
+        # damaged well-formed programs: truncated anywhere, one character dropped, one hostile character inserted
+        for src in srng.sample(rendered, min(len(rendered), 120)):
+            for i in sorted(srng.sample(range(1, len(src)), min(len(src) - 1, 6))):
+                texts.append(src[:i])
+                texts.append(src[:i] + src[i + 1:])
+                texts.append(src[:i] + srng.choice("()[]'\"\\$!&|\n") + src[i:])
     texts += [h + "\n" + h2 for h, h2 in itertools.product(HOSTILE[:60:3], HOSTILE[5:80:5])]
     seen, uniq = set(), []
     for t in texts:
@@ -244,7 +244,7 @@ def run(tier, seed, replay=None):
         r = tlc.model_check("CmdGrammar", cfg_text=core.set_deviations(gcfg, ["Dev_AssignLikeAfterOperator"]), expect_ok=False, coverage=False, timeout=600)
         selftest["Dev_AssignLikeAfterOperator"] = r["errors"][:1]
         res.coverage["deviation_selftest"] = selftest
-        shapes = universe(tier, rng)
+        shapes = universe(tier, rng, core.streams(tier, seed))
         texts = None
     scns = [{"shape": s} for s in shapes]
     out = pool.run("cmdwrap", scns, hooks=True, timeout=3000)
@@ -253,7 +253,7 @@ def run(tier, seed, replay=None):
         raise tlc.TLCError("driver failure: " + json.dumps(bad_workers[0])[:3000])
     stats1 = core.validate_with_findings(res, "CmdGrammarTrace", out, gcfg, describe=describe_equiv, timeout=3000, project=slim_equiv) if out else {"validated": 0}
     if texts is None:
-        texts = hostile_universe(tier, rng, [t["bare"] for t in out])
+        texts = hostile_universe(tier, rng, [t["bare"] for t in out], core.streams(tier, seed))
     tout = pool.run("cmdwrap", texts, hooks=True, timeout=3000)
     bad_workers = [t for t in tout if "steps" not in t]
     if bad_workers:
